@@ -265,6 +265,8 @@ class OpenDocument:
         if elt.parentNode.qname in ((OFFICENS,u'styles'), (OFFICENS,u'automatic-styles')):
             if name in self._styles_dict:
                 newname = u'M'+name # Rename style
+                while newname in self._styles_dict:
+                    newname = u'M'+newname # that name is taken too
                 self._styles_ooo_fix[name] = newname
                 # From here on all references to the old name will refer to the new one
                 name = newname
